@@ -11,7 +11,7 @@ macro_rules! open3 {
     ($name:ident, $n:expr, $tl:expr, $maxpos:expr) => {
         #[kani::proof]
         #[kani::unwind(8)]
-        #[kani::stub(succinctly::util::simd::x86::has_fast_bmi2, no)]
+        #[kani::stub(succinctly::util::broadword::select_in_word, crate::stubs::select_in_word_contract)]
         #[kani::stub(std_detect::detect::__is_feature_detected::avx2, yes)]
         #[kani::stub(core::arch::x86_64::_mm256_shuffle_epi8, models::mm256_shuffle_epi8)]
         #[kani::stub(core::arch::x86_64::_mm256_sad_epu8, models::mm256_sad_epu8)]
@@ -54,7 +54,7 @@ macro_rules! end3 {
     ($name:ident, $n:expr, $tl:expr, $maxpos:expr) => {
         #[kani::proof]
         #[kani::unwind(8)]
-        #[kani::stub(succinctly::util::simd::x86::has_fast_bmi2, no)]
+        #[kani::stub(succinctly::util::broadword::select_in_word, crate::stubs::select_in_word_contract)]
         #[kani::stub(std_detect::detect::__is_feature_detected::avx2, yes)]
         #[kani::stub(core::arch::x86_64::_mm256_shuffle_epi8, models::mm256_shuffle_epi8)]
         #[kani::stub(core::arch::x86_64::_mm256_sad_epu8, models::mm256_sad_epu8)]
@@ -107,6 +107,228 @@ end3!(c17_end3_n4_tl100, 4, 100, 100);
 end3!(c17_end3_n5_tl128, 5, 128, 128);
 end3!(c17_end3_n4_tl64, 4, 64, 64);
 end3!(c17_end3_n4_tl63, 4, 63, 63);
+
+// ---- one-step induction over lookup histories ------------------------------------------
+//
+// The sequential cursor makes answers history dependent. Instead of enumerating
+// histories, start from an ARBITRARY cursor state that satisfies the
+// representation invariant (seeded through the verif-hooks setter), perform one
+// arbitrary lookup, and show (a) the answer is the recorded position and (b)
+// the invariant holds again. The initial state satisfies the invariant, so every
+// finite history follows.
+
+/// Oracle view of the encoding, recomputed from the positions: which opens
+/// advance, and the interest bits (distinct positions) as two 64-bit words.
+struct Enc<const N: usize> {
+    eff: [u32; N],
+    adv: [bool; N],
+    ib: [u64; 3],
+}
+fn enc_open<const N: usize>(pos: &[u32; N]) -> Enc<N> {
+    let mut e = Enc { eff: *pos, adv: [false; N], ib: [0; 3] };
+    let mut i = 0;
+    while i < N {
+        e.adv[i] = i == 0 || pos[i] != pos[i - 1];
+        e.ib[(pos[i] / 64) as usize] |= 1u64 << (pos[i] % 64);
+        i += 1;
+    }
+    e
+}
+fn enc_end<const N: usize>(pos: &[u32; N]) -> Enc<N> {
+    let mut e = Enc { eff: [0; N], adv: [false; N], ib: [0; 3] };
+    let mut prev = 0u32;
+    let mut i = 0;
+    while i < N {
+        let eff = if pos[i] > 0 { pos[i] } else { prev };
+        e.eff[i] = eff;
+        e.adv[i] = eff != 0 && (i == 0 || eff != e.eff[i - 1]);
+        if eff != 0 {
+            e.ib[(eff / 64) as usize] |= 1u64 << (eff % 64);
+            prev = eff;
+        }
+        i += 1;
+    }
+    e
+}
+fn rank_adv<const N: usize>(e: &Enc<N>, j: usize) -> usize {
+    let mut c = 0;
+    let mut i = 0;
+    while i < N {
+        if i < j && e.adv[i] {
+            c += 1;
+        }
+        i += 1;
+    }
+    c
+}
+fn ones_before_word(ib: &[u64; 3], w: usize) -> usize {
+    let mut c = 0usize;
+    let mut i = 0;
+    while i < 3 {
+        if i < w {
+            c += ib[i].count_ones() as usize;
+        }
+        i += 1;
+    }
+    c
+}
+type St = (usize, usize, usize, usize, usize, usize);
+/// Representation invariant of the sequential cursor.
+fn inv<const N: usize>(e: &Enc<N>, nwords: usize, s: St) -> bool {
+    let (next, adv_cum, wi, ones_before, last_arg, last_res) = s;
+    if next > N || wi > nwords {
+        return false;
+    }
+    if adv_cum != rank_adv(e, next) {
+        return false;
+    }
+    if ones_before != ones_before_word(&e.ib, wi) {
+        return false;
+    }
+    // the next interest bit that can be asked for is not behind the scan position
+    let kmin = if adv_cum == 0 { 0 } else { adv_cum - 1 };
+    if ones_before > kmin {
+        return false;
+    }
+    if last_arg != usize::MAX {
+        // last_res is the position of the last_arg-th interest bit
+        let w = last_res / 64;
+        let b = last_res % 64;
+        if w >= 3 || (e.ib[w] >> b) & 1 == 0 {
+            return false;
+        }
+        if ones_before_word(&e.ib, w) + (e.ib[w] & ((1u64 << b) - 1)).count_ones() as usize != last_arg {
+            return false;
+        }
+    }
+    true
+}
+
+macro_rules! open_step {
+    ($name:ident, $n:expr, $tl:expr, $maxpos:expr) => {
+        #[kani::proof]
+        #[kani::unwind(8)]
+        #[kani::stub(succinctly::util::broadword::select_in_word, crate::stubs::select_in_word_contract)]
+        #[kani::stub(std_detect::detect::__is_feature_detected::avx2, yes)]
+        #[kani::stub(core::arch::x86_64::_mm256_shuffle_epi8, models::mm256_shuffle_epi8)]
+        #[kani::stub(core::arch::x86_64::_mm256_sad_epu8, models::mm256_sad_epu8)]
+        fn $name() {
+            let pos: [u32; $n] = kani::any();
+            let mut j = 0;
+            while j < $n {
+                kani::assume(pos[j] <= $maxpos);
+                if j > 0 {
+                    kani::assume(pos[j - 1] <= pos[j]);
+                }
+                j += 1;
+            }
+            let e = enc_open::<$n>(&pos);
+            let op = OpenPositions::build(&pos, $tl);
+            let ap = match &op {
+                OpenPositions::Compact(ap) => ap,
+                _ => {
+                    assert!(false);
+                    return;
+                }
+            };
+            let nwords = ($tl + 63) / 64;
+            // the state after construction satisfies the invariant
+            assert!(inv(&e, nwords, ap.verif_cursor_state()));
+            // arbitrary state satisfying the invariant
+            let s: St = (kani::any(), kani::any(), kani::any(), kani::any(), kani::any(), kani::any());
+            kani::assume(inv(&e, nwords, s));
+            ap.verif_set_cursor_state(s);
+            let i: usize = kani::any();
+            kani::assume(i <= $n + 1);
+            let got = op.get(i);
+            assert!(got == if i < $n { Some(pos[i]) } else { None });
+            assert!(inv(&e, nwords, ap.verif_cursor_state()));
+            kani::cover!(i < s.0 && i < $n);
+            kani::cover!(i == s.0 && s.4 != usize::MAX && i < $n);
+            kani::cover!(i > s.0 + 1 && i < $n);
+            core::mem::forget(op);
+        }
+    };
+}
+open_step!(c17_open_step_n4_tl100, 4, 100, 99);
+open_step!(c17_open_step_n5_tl128, 5, 128, 127);
+open_step!(c17_open_step_n4_tl64, 4, 64, 63);
+open_step!(c17_open_step_n6_tl100, 6, 100, 99);
+// positions may equal the text length
+open_step!(c17_open_step_n4_tl100_eof, 4, 100, 100);
+open_step!(c17_open_step_n4_tl64_eof, 4, 64, 64);
+
+macro_rules! end_step {
+    ($name:ident, $n:expr, $tl:expr, $maxpos:expr) => {
+        #[kani::proof]
+        #[kani::unwind(8)]
+        #[kani::stub(succinctly::util::broadword::select_in_word, crate::stubs::select_in_word_contract)]
+        #[kani::stub(std_detect::detect::__is_feature_detected::avx2, yes)]
+        #[kani::stub(core::arch::x86_64::_mm256_shuffle_epi8, models::mm256_shuffle_epi8)]
+        #[kani::stub(core::arch::x86_64::_mm256_sad_epu8, models::mm256_sad_epu8)]
+        fn $name() {
+            let pos: [u32; $n] = kani::any();
+            // non-zero entries non-decreasing (compact encoding), zero = no end recorded
+            let mut prev = 0u32;
+            let mut j = 0;
+            while j < $n {
+                kani::assume(pos[j] <= $maxpos);
+                if pos[j] > 0 {
+                    kani::assume(pos[j] >= prev);
+                    prev = pos[j];
+                }
+                j += 1;
+            }
+            kani::assume(prev > 0); // at least one recorded end (otherwise the table is empty)
+            let e = enc_end::<$n>(&pos);
+            let ep = EndPositions::build(&pos, $tl);
+            let c = match &ep {
+                EndPositions::Compact(c) => c,
+                _ => {
+                    assert!(false);
+                    return;
+                }
+            };
+            let nwords = ($tl + 1 + 63) / 64;
+            assert!(inv(&e, nwords, c.verif_cursor_state()));
+            let s: St = (kani::any(), kani::any(), kani::any(), kani::any(), kani::any(), kani::any());
+            kani::assume(inv(&e, nwords, s));
+            c.verif_set_cursor_state(s);
+            let i: usize = kani::any();
+            kani::assume(i <= $n + 1);
+            let got = ep.get(i);
+            assert!(end_ok(&pos, i, got));
+            assert!(inv(&e, nwords, c.verif_cursor_state()));
+            kani::cover!(i < s.0 && i < $n && pos[i] > 0);
+            kani::cover!(i == s.0 && i < $n && pos[i] == 0 && got.is_some());
+            core::mem::forget(ep);
+        }
+    };
+}
+end_step!(c17_end_step_n4_tl100, 4, 100, 100);
+end_step!(c17_end_step_n5_tl128, 5, 128, 128);
+end_step!(c17_end_step_n4_tl64, 4, 64, 64);
+end_step!(c17_end_step_n4_tl63, 4, 63, 63);
+
+/// Non-monotone inputs take the dense fallback, which has no cursor: any index.
+#[kani::proof]
+#[kani::unwind(8)]
+fn c17_dense_fallback_n4() {
+    let pos: [u32; 4] = kani::any();
+    kani::assume(pos[0] <= 100 && pos[1] <= 100 && pos[2] <= 100 && pos[3] <= 100);
+    kani::assume(pos[0] > pos[1] || pos[1] > pos[2] || pos[2] > pos[3]);
+    let op = OpenPositions::build(&pos, 100);
+    assert!(!op.is_compact());
+    let i: usize = kani::any();
+    assert!(op.get(i) == if i < 4 { Some(pos[i]) } else { None });
+    // ends: non-monotone among the non-zero entries
+    kani::assume(pos[0] > 0 && pos[1] > 0 && pos[2] > 0 && pos[3] > 0);
+    let ep = EndPositions::build(&pos, 100);
+    assert!(matches!(ep, EndPositions::Dense(_)));
+    assert!(end_ok(&pos, i, ep.get(i)));
+    core::mem::forget(op);
+    core::mem::forget(ep);
+}
 
 #[kani::proof]
 #[kani::unwind(8)]
